@@ -245,6 +245,9 @@ def compare_ok(op, impl_toks, model_toks, tol):
             if not seq_eq(vi, vm, tol, scale):
                 return False
         else:
+            if op and op[0].endswith('to_map'):
+                # HashMap keyed by the pair of names: identical entries (duplicate taxon names) collapse
+                vm = [list(x) for x in sorted(set(tuple(y) for y in vm))]
             if len(vi) != len(vm):
                 return False
             a = sorted(vi, key=item_key)
@@ -476,7 +479,7 @@ def derive_model_ops(case, impl_lines):
             try:
                 before = int(impl_lines[i - 1][1]) if impl_lines[i - 1][0] == 'ok' else None
                 nodes = parse_dump(impl_lines[i + 1][1:]) if impl_lines[i + 1][0] == 'ok' else None
-            except (IndexError, ValueError):
+            except (IndexError, ValueError, AssertionError):
                 before, nodes = None, None
             if before is None or nodes is None or impl_lines[i][0] != 'ok':
                 mops.append('resolve')
@@ -494,7 +497,7 @@ def derive_model_ops(case, impl_lines):
             try:
                 if impl_lines[i][0] == 'ok' and impl_lines[i + 1][0] == 'ok':
                     nodes = parse_dump(impl_lines[i + 1][1:])
-            except IndexError:
+            except (IndexError, AssertionError, ValueError):
                 nodes = None
             if nodes is None:
                 mops.append('gen %s %d %s P L' % (shape, n, brl))
